@@ -88,6 +88,7 @@ def run(repo, chk, tier):
     dispatch(repo, chk)
     scorers(repo, chk)
     label_side(repo, chk)
+    estimator_roles(repo, chk)
     coded_columns(repo, chk)
     coverage(repo, chk)
     from .common import vector_casts
@@ -238,6 +239,31 @@ def label_side(repo, chk):
             ok = (first, second) == (c0, c1)
             why = f'pair ({c0}, {c1}) without the label must keep its orientation; got ({first}, {second})'
         chk.expect(ok, 'C05.3', 'paths', fn.site(), f'{cname}: vectors = columns ({first}, {second})', 'label acts as the conditioning target; both columns of the pair are used', why)
+
+
+def estimator_roles(repo, chk):
+    """C05.3b - the label stays the conditioning target on the way into the numba estimator: numba_mi hands (feature vector, target vector) to the
+    parameters (Y, X) of mutual_info_estimator_numba, whatever the spelling of the call (positions or keywords)."""
+    from ..match import bind_args
+    from .common import param_deps
+    MI_MOD = 'outrank.algorithms.feature_ranking.ranking_mi_numba'
+    fn = repo.func(IE, 'numba_mi')
+    m = fn.module
+    est = repo.func(MI_MOD, 'mutual_info_estimator_numba')
+    cs = [c for c in calls(fn) if m.dotted(c.func) == f'{MI_MOD}.mutual_info_estimator_numba']
+    if len(cs) != 1:
+        chk.unsure('C05.3b', 'R6', fn.site(), 'mutual_info_estimator_numba(...)', f'{len(cs)} calls of the estimator in numba_mi')
+        return
+    ba = bind_args(cs[0], est)
+    d0 = param_deps(fn, ba.get(est.params[0], ast.Constant(None))) & set(fn.params[:2])
+    d1 = param_deps(fn, ba.get(est.params[1], ast.Constant(None))) & set(fn.params[:2])
+    if d0 == {fn.params[0]} and d1 == {fn.params[1]}:
+        chk.ok('C05.3b', 'R6', fn.site(cs[0]), ast.unparse(cs[0]).replace('\n', ' ')[:140], f'the feature vector reaches `{est.params[0]}`, the target (label) vector reaches `{est.params[1]}`, the conditioning side of the estimator')
+    elif d0 == {fn.params[1]} and d1 == {fn.params[0]}:
+        chk.bad('C05.3b', 'R6', fn.site(cs[0]), ast.unparse(cs[0]).replace('\n', ' ')[:140], f'the two vectors reach the estimator in exchanged roles: the target (label) vector is bound to `{est.params[0]}` and the feature to '
+                f'`{est.params[1]}`, the conditioning side - the cardinality-corrected score is then H(X*|Y) - H(X|Y) of the wrong orientation (plain MI is symmetric and hides it)')
+    else:
+        chk.unsure('C05.3b', 'R6', fn.site(cs[0]), ast.unparse(cs[0]).replace('\n', ' ')[:140], 'which of the two vectors reaches which side of the estimator is not decided')
 
 
 def _sym_exec(fn, comb, args, frame, c0, c1):
@@ -456,6 +482,13 @@ def coverage(repo, chk):
     key = term_of(fn, inc.target.slice, inline=True)
     helper = next((f for q, f in m.funcs.items() if q.startswith('max_pair_coverage.')), None)
     e1, e2 = E(f'{a1}[{i}]'), E(f'{a2}[{i}]')
+    # for x, y in zip(a1, a2): the row's own pair is (x, y)
+    if isinstance(lp.target, ast.Tuple) and len(lp.target.elts) == 2 and all(isinstance(x, ast.Name) for x in lp.target.elts) and isinstance(lp.iter, ast.Call) and isinstance(lp.iter.func, ast.Name) and lp.iter.func.id == 'zip' \
+            and len(lp.iter.args) == 2 and not lp.iter.keywords and sorted(ast.unparse(a) for a in lp.iter.args) == sorted([a1, a2]) \
+            and not any(isinstance(x, ast.Name) and isinstance(x.ctx, ast.Store) and x.id in (lp.target.elts[0].id, lp.target.elts[1].id) for b in lp.body for x in ast.walk(b)):
+        by_arr = {ast.unparse(a): t.id for a, t in zip(lp.iter.args, lp.target.elts)}
+        e1, e2 = ('name', by_arr[a1]), ('name', by_arr[a2])
+        ok_it, i = True, '<no index>'
     opaque = key[0] == 'call' and key[1][0] == 'name'     # a local helper that is not a single return expression
     if opaque:
         ok_key = helper is not None and key == ('call', ('name', helper.name), (e1, e2), ())
@@ -464,6 +497,15 @@ def coverage(repo, chk):
     else:
         kterm = key
         ok_key = True
+    # the table of pair counts holds numbers up to the size of the batch: a narrow integer type wraps
+    from .common import NARROW_DTYPES
+    tbl = inc.target.value.id if isinstance(inc.target.value, ast.Name) else None
+    for n_ in own_nodes(fn.node):
+        if isinstance(n_, ast.Assign) and len(n_.targets) == 1 and isinstance(n_.targets[0], ast.Name) and n_.targets[0].id == tbl and isinstance(n_.value, ast.Call):
+            dt_ = next((k.value for k in n_.value.keywords if k.arg == 'dtype'), None)
+            if dt_ is not None and ast.unparse(dt_) in NARROW_DTYPES:
+                chk.bad('C05.5e', 'R8', fn.site(n_), ast.unparse(n_)[:100], f'the table of pair counts has dtype {ast.unparse(dt_)}: a joint value that occurs more often in a batch than that type can hold wraps around '
+                        '(negative counts), so the largest joint-value frequency is wrong for large batches')
     ok_inc = isinstance(inc.op, ast.Add) and isinstance(inc.value, ast.Constant) and inc.value.value == 1 and not any(isinstance(x, (ast.If, ast.Continue)) for x in ast.walk(lp))
     chk.expect(ok_it and ok_key and ok_inc, 'C05.5a', 'R9', fn.site(inc), ast.unparse(lp).replace('\n', ' ')[:140], 'every row increments the bucket of its own (a[i], b[i]) pair by 1', 'each row must add exactly 1 to the bucket keyed by its own pair (array1[i], array2[i])')
     cnt = inc.target.value.id if isinstance(inc.target.value, ast.Name) else None
